@@ -760,6 +760,7 @@ def holdsC19 (h : History) (tr : ImplTrace) : Verdict := Id.run do
     | _ => false
   for a in h.actions do
     let rec_ := tr[idx]?.getD {}
+    let pre := if idx == 0 then ({} : ActionRec) else tr[idx - 1]?.getD {}
     let announced := expect.isSome
     match expect, a with
     | some cls, .expectPanic _ => expect := some cls
@@ -794,8 +795,17 @@ def holdsC19 (h : History) (tr : ImplTrace) : Verdict := Id.run do
           if rec_.api != "ok" then
             return some s!"action {idx}: set_max_height_allowed({m}) with greatest height in use {maxUsed} answered `{rec_.api}`"
           limit := m
-        else if rec_.api != "panic below-max-seen" then
-          return some s!"action {idx}: set_max_height_allowed({m}) below the greatest height in use {maxUsed} answered `{rec_.api}`"
+        else
+          -- below the greatest height EVER seen; the property speaks of the greatest height IN USE now
+          let inUse : Nat := (pre.snaps.filter (·.nec)).foldl (fun acc sn => max acc sn.h.toNat) 0
+          if m ≥ inUse then
+            if rec_.api == "ok" then limit := m
+            else if rec_.api == "panic below-max-seen" then
+              return some s!"F14 action {idx}: set_max_height_allowed({m}) refused although the greatest height in use is {inUse} (the greatest height ever seen is {maxUsed})"
+            else
+              return some s!"action {idx}: set_max_height_allowed({m}) answered `{rec_.api}`"
+          else if rec_.api != "panic below-max-seen" then
+            return some s!"action {idx}: set_max_height_allowed({m}) below the greatest height in use {inUse} answered `{rec_.api}`"
       else if rec_.api == "ok" then limit := m
     | _ => pure ()
     if !((words rec_.stats).contains "status=NotStabilising") && !rec_.stats.isEmpty then poisoned := true
